@@ -20,6 +20,7 @@ TIMEOUT = {"quick": 1500, "thorough": 7200}
 
 KINDS = {
     "std": (2, ["-m", "mae", "-x", "leadtime"]),
+    "std5": (5, ["-m", "mae", "-x", "leadtime"]),      # more lines than entries in the style lists: each list repeats by its own length
     "loc": (2, ["-m", "mae", "-x", "location"]),
     "map": (2, ["-m", "mae", "-type", "map"]),
     "pithist": (2, ["-m", "pithist"]),
@@ -211,10 +212,10 @@ def p_ls(fig, kind, info):
     s = _series(fig, kind, info)
     if s is None:
         return "data lines not found"
-    want = ["--", ":"]
+    want = ["--", ":", "-."]
     for i, l in enumerate(s):
-        if l.get_linestyle() != want[i % 2]:
-            return "line %d style %r, expected %s" % (i, l.get_linestyle(), want[i % 2])
+        if l.get_linestyle() != want[i % 3]:
+            return "line %d style %r, expected %s" % (i, l.get_linestyle(), want[i % 3])
 
 
 def p_lw(fig, kind, info):
@@ -231,20 +232,20 @@ def p_ma(fig, kind, info):
     s = _series(fig, kind, info)
     if s is None:
         return "data lines not found"
-    want = ["x", "s"]
+    want = ["x", "s", "^"]
     for i, l in enumerate(s):
-        if l.get_marker() != want[i % 2]:
-            return "line %d marker %r, expected %s" % (i, l.get_marker(), want[i % 2])
+        if l.get_marker() != want[i % 3]:
+            return "line %d marker %r, expected %s" % (i, l.get_marker(), want[i % 3])
 
 
 def p_ms(fig, kind, info):
     s = _series(fig, kind, info)
     if s is None:
         return "data lines not found"
-    want = [4.0, 9.0]
+    want = [4.0, 9.0, 6.0, 5.0]
     for i, l in enumerate(s):
-        if abs(l.get_markersize() - want[i % 2]) > 1e-6:
-            return "line %d marker size %r, expected %s" % (i, l.get_markersize(), want[i % 2])
+        if abs(l.get_markersize() - want[i % 4]) > 1e-6:
+            return "line %d marker size %r, expected %s" % (i, l.get_markersize(), want[i % 4])
 
 
 def p_labfs(fig, kind, info):
@@ -438,15 +439,15 @@ OPTIONS = {
     "yrot": (["-yrot", "25"], ["std", "loc", "pithist", "igncontrib"], p_yrot, None),
     "xlog": (["-xlog"], ["std"], p_xlog, "xlog"),
     "ylog": (["-ylog"], ["std", "loc"], p_ylog, "ylog"),
-    "leg": (["-leg", "LEGNAMES"], ["std", "loc", "igncontrib"], p_leg, None),
+    "leg": (["-leg", "LEGNAMES"], ["std", "std5", "loc", "igncontrib"], p_leg, None),
     "legfs": (["-legfs", "7"], ["std", "loc", "igncontrib"], p_legfs, "legfs"),
     "legfs0": (["-legfs", "0"], ["std", "loc", "igncontrib"], p_legfs0, "legfs"),
     "legloc": (["-legloc", "lower_left"], ["std", "loc", "igncontrib"], p_legloc, "legfs0x"),
-    "lc": (["-lc", "red,blue"], ["std", "loc"], p_lc, None),
-    "ls": (["-ls", "--,:"], ["std"], p_ls, None),
-    "lw": (["-lw", "3,1"], ["std"], p_lw, None),
-    "ma": (["-ma", "x,s"], ["std", "loc"], p_ma, None),
-    "ms": (["-ms", "4,9"], ["std", "loc"], p_ms, None),
+    "lc": (["-lc", "red,blue"], ["std", "std5", "loc"], p_lc, None),
+    "ls": (["-ls", "--,:,-."], ["std", "std5"], p_ls, None),
+    "lw": (["-lw", "3,1"], ["std", "std5"], p_lw, None),
+    "ma": (["-ma", "x,s,^"], ["std", "std5", "loc"], p_ma, None),
+    "ms": (["-ms", "4,9,6,5"], ["std", "std5", "loc"], p_ms, None),
     "labfs": (["-labfs", "11"], ["std", "loc", "pithist", "igncontrib", "against"], p_labfs, None),
     "tickfs": (["-tickfs", "9"], ["std", "loc", "pithist", "igncontrib", "against"], p_tickfs, None),
     "titlefs": (["-title", "My_title_1", "-titlefs", "23"], ["std", "loc", "pithist"], p_titlefs, "title"),
@@ -613,7 +614,7 @@ def run_subsets(desc, ctx):
     rng = random.Random("C17-sub-%s-%s" % (desc["seed"], desc["k"]))
     df = default_failures(ctx, desc["seed"])
     for ci in range(desc["n"]):
-        kind = rng.choice(["std", "std", "loc", "loc", "map", "pithist", "igncontrib", "against"])
+        kind = rng.choice(["std", "std", "std5", "loc", "loc", "map", "pithist", "igncontrib", "against"])
         cand = [n for n in OPTIONS if kind in OPTIONS[n][1]]
         for _ in range(30):
             names = rng.sample(cand, min(len(cand), rng.randint(2, 7)))
@@ -638,7 +639,7 @@ def run_pairs(desc, ctx):
     i = 0
     for fam in FAMILIES:
         for a, b in itertools.combinations(fam, 2):
-            for kind in ("std", "pithist"):
+            for kind in ("std", "std5", "pithist"):
                 if kind not in OPTIONS[a][1] or kind not in OPTIONS[b][1] or not compatible([a, b]):
                     continue
                 i += 1
